@@ -59,7 +59,7 @@ func genC06(t *rapid.T) *c06Scenario {
 		Cycles:     rapid.SampledFrom([]int{1, 1, 1, 2}).Draw(t, "cycles"),
 	}
 	if rapid.IntRange(0, 5).Draw(t, "negative") == 0 {
-		sc.Negative = rapid.SampledFrom([]string{"noserver", "dialerror", "cancelled", "close_unconnected"}).Draw(t, "negative_kind")
+		sc.Negative = rapid.SampledFrom([]string{"noserver", "dialerror", "cancelled", "close_unconnected", "tlsfail"}).Draw(t, "negative_kind")
 		if sc.Negative == "cancelled" {
 			sc.UseCtx, sc.CtxDialer = true, true
 		}
@@ -169,10 +169,14 @@ func runC06(sc *c06Scenario) *Violation {
 
 	// ---- negative scenarios ----
 	switch sc.Negative {
-	case "noserver", "dialerror", "cancelled":
+	case "noserver", "dialerror", "cancelled", "tlsfail":
 		ctx, cancel := context.WithCancel(context.Background())
 		defer cancel()
 		switch sc.Negative {
+		case "tlsfail":
+			// the dial succeeds, the TLS handshake does not (the peer hangs up)
+			tc.Cfg.SSL = true
+			tc.S.Prepare(func(c *ircsim.Conn) { c.EOF() })
 		case "noserver":
 			tc.Cfg.Server = ""
 		case "dialerror":
